@@ -4,13 +4,12 @@ CONSTANTS
   Payloads <- Pay2
   RawValid <- RawValid2
   RawOversized <- RawBig2
-  MaxFrames = 3
+  MaxFrames = 4
   BufferOversized = FALSE
   NonceReuse = FALSE
-  AllowReconnect = FALSE
-  NoncePerSession = FALSE
+  AllowReconnect = TRUE
+  NoncePerSession = TRUE
   DupDeliver = FALSE
-INVARIANTS Reach_SendRefused
-
+INVARIANTS C14_FreshNonce
 VIEW View
 CHECK_DEADLOCK FALSE
